@@ -199,6 +199,50 @@ def lock_wait_scenarios(rng, viol, stats, samples):
                 pr.destroy()
 
 
+def cheater_is_last_child_scenario(viol, stats, samples):
+    """A top-level `redo-ifchange first other third` under a make-style jobserver (one token in the pipe, one implicit):
+    `first.do` forces `c` while `other` is building it — it waits for the lock, gives up its token, cheats, builds `c`
+    again on the borrowed token and is the LAST job of the command to finish.  The last child exit the top-level redo
+    handles then settles the cheater's IOU, and redo is about to leave without a token: being the top of its redo tree
+    it must take one back from the pipe (nobody above it reads IOUs; the caller takes its implicit slot back).  When the
+    command is gone the pipe must hold exactly the one token it held before (before the repair: two)."""
+    waitfor = 'waitfor() { _i=0; while [ ! -e "$1" ] && [ "$_i" -lt "$2" ]; do sleep 0.1; _i=$((_i+1)); done; [ -e "$1" ]; }\n'
+    files = {
+        "first.do": waitfor + "waitfor c.started 150\nredo c\n",
+        "other.do": waitfor + "redo-ifchange c\nwaitfor c.second 150\n: >other.end\n",
+        "third.do": waitfor + ": >third.started\nwaitfor c.second 150\n: >third.end\n",
+        "c.do": waitfor + "if [ ! -e c.ran1 ]; then : >c.ran1; : >c.started; waitfor third.started 150; sleep 0.3\nelse : >c.second; waitfor other.end 150; waitfor third.end 150; sleep 0.7; fi\n",
+    }
+    pr = Project()
+    ext = sched.ExtJobserver(1)
+    try:
+        for f, body in files.items():
+            pr.write(f, body)
+        rs = sched.run_cmds(pr, [["redo-ifchange", "first", "other", "third"]], env=ext.env(), timeout=120, pass_fds=ext.fds())
+        left = ext.count()
+        trace = rs[0].trace
+        stats["runs"] += 1
+        stats["inherited"] += 1
+        cheated = sum(1 for e in trace if e[2] == "js.cheat")
+        stats["cheater_last_child_cheats"] = cheated
+        problems = []
+        if rs[0].timed_out or rs[0].rc != 0:
+            problems.append("exit status %s%s although every script succeeds" % (rs[0].rc, " (timed out)" if rs[0].timed_out else ""))
+        if left != 1:
+            problems.append("inherited jobserver pipe holds %d tokens after the command has exited, 1 before: redo %s a token" % (left, "created" if left > 1 else "lost"))
+        for grp, ans, nev in sched.replay_tokens(trace, ext_pipe=1):
+            stats["events"] += nev
+            stats["groups"] += 1
+            if not ans.startswith("ok"):
+                problems.append("token trace rejected by the model: " + ans)
+        if problems:
+            p = write_replay("C08", "cheater-last-child", dict(kind="impl-monitor+trace", files=files, problems=problems, cheats=cheated, stderr=rs[0].err[-1500:], events=sched.token_groups(trace)))
+            viol.append(Violation("C08", p, "make-style jobserver, the job that cheated is the last child of the top-level redo: " + "; ".join(problems)))
+    finally:
+        ext.close()
+        pr.destroy()
+
+
 def nested_j_scenarios(rng, viol, stats, samples):
     """A script runs `redo -jM sub` inside a wider build (outer `redo -jN`, or a jobserver with N-1 tokens inherited
     from the harness), M < N.  The nested redo starts a jobserver of its own; everything below it has to live on those
@@ -592,6 +636,8 @@ def run(ctx):
         cheater_meets_iou_scenario(viol, stats, samples)
     if not viol:
         start_failure_scenario(viol, stats, samples)
+    if not viol:
+        cheater_is_last_child_scenario(viol, stats, samples)
     return dict(evaluations=stats["events"], distinct_nontrivial=stats["runs"],
                 rule="MAKEFLAGS strings (all sequences of up to 3 tokens over the option spellings, digits, signs, commas, blanks; seeded longer ones; i32 boundary values) through the real parser and the model, and the value a real redo -jN exports against Makeflags.format; two directed scenarios for the borrowed-token path (followed job waits for a locked target, wakes up with no token free, cheats; then exits with the loan / releases it again) under an inherited jobserver; three directed lock-contention runs under an inherited jobserver (two concurrent top-level commands want the same target; the waiter has all its slots busy first, gives up its token, blocks on the lock; the other build fails / completes the target; k = 0..2 tokens in the pipe, redo / redo-ifchange, -k, with and without log): pipe contents afterwards, model replay, final model pipe and IOU count; two nested `redo -jM sub` runs (M = 1..2) inside `redo -jN` / an inherited jobserver of N-1 tokens (N = 4..5; fan and diamond sub-graphs of 5-6 recording scripts): overlap of the sub-build's work sections <= M (+1 with log), overall <= N, outer tokens conserved, every jobserver's trace replayed; seeded random build graphs (3-9 targets; chains, fans, diamonds, layers; failing, checksummed, always targets) built at -j1..4 with own or inherited (MAKEFLAGS) jobserver, with and without log capture, first build and rebuild; every primitive token event of every process is replayed by the Lean acceptor; distinct = runs",
                 samples=samples, traces_validated_against_impl=stats["groups"], disagreements_checked=stats["events"], distribution=dict(stats, per_process_counter_model_TokLoop=dict(sched.TOKLOOP_STATS)), known_hit=known_hit)
